@@ -358,4 +358,321 @@ theorem blockOf_sum (h' : Heap) (ys : List Id) (o' : Observable) (q : NKey) (g :
     blockOf h' ys o' q g k = (ys.map (fun y => cntItems (hookList h' k true g (some y)) o' q)).sum := by
   simp [blockOf, cntItems_flatMap, List.map_map, Function.comp_def]
 
+/-! ### the fragment -/
+
+/-- Hypotheses under which a mutation of list `c` (contents `items` ↦ `items'`,
+reported as `ev`) preserves the invariant. -/
+structure ListCore (E : Env) (st : St) (regs : List Reg) (c : Id) (items items' : List Id) (ev : CEvent) : Prop where
+  hc : st.h.get c = .list items
+  /-- no `filtered` (`*`, `+metadata`) node in any active registration -/
+  noFiltered : ∀ r ∈ regs, r.g.noFiltered = true
+  alive : ∀ k, E.dead k = false
+  /-- the walks the maintainers perform meet no failing `iter_*` -/
+  okRem : ∀ mk g k, Notifier.maint mk g k ∈ st.H.get (.cont c) → ∀ y ∈ ev.removed,
+    walkOk (st.h.upd c (.list items')) true g (some y) = true
+  okAdd : ∀ mk g k, Notifier.maint mk g k ∈ st.H.get (.cont c) → ∀ y ∈ ev.added,
+    walkOk (st.h.upd c (.list items')) true g (some y) = true
+  /-- NoSelfReach: below the current items, and below the removed / added ones, the
+  maintained sub-graphs never come back to the list itself -/
+  nsrItems : ∀ r ∈ regs, ∀ g ∈ Gen.visits (listSite c) actTrue st.h r.g (some r.x), ∀ y ∈ items,
+    ∀ it ∈ hookList st.h r.k true g (some y), it.1 ≠ .cont c
+  nsrLive : ∀ mk g k, Notifier.maint mk g k ∈ st.H.get (.cont c) → ∀ y ∈ ev.removed ++ ev.added,
+    ∀ it ∈ hookList (st.h.upd c (.list items')) k true g (some y), it.1 ≠ .cont c
+  /-- graph equality is structural on the sub-graphs involved -/
+  eqStruct : ∀ mk g k, Notifier.maint mk g k ∈ st.H.get (.cont c) → ∀ r ∈ regs,
+    ∀ g' ∈ Gen.visits (listSite c) actTrue st.h r.g (some r.x),
+    (NKey.maint mk g k).equals (.maint .list g' r.k) = true → g = g' ∧ k = r.k
+
+/-- … plus: the event is a faithful delta, old = removed + rest, new = rest + added
+(as multisets; proved below for each list operation). -/
+structure ListFrag (E : Env) (st : St) (regs : List Reg) (c : Id) (items items' rest : List Id) (ev : CEvent) : Prop
+    extends ListCore E st regs c items items' ev where
+  hitems : ∀ F : Id → Nat, (items.map F).sum = (ev.removed.map F).sum + (rest.map F).sum
+  hitems' : ∀ F : Id → Nat, (items'.map F).sum = (rest.map F).sum + (ev.added.map F).sum
+
+theorem mem_of_sum_decomp (items removed rest : List Id)
+    (hd : ∀ F : Id → Nat, (items.map F).sum = (removed.map F).sum + (rest.map F).sum) :
+    ∀ y ∈ removed, y ∈ items := by
+  intro y hy
+  by_cases hin : y ∈ items
+  · exact hin
+  · exfalso
+    have := hd (fun z => if z = y then 1 else 0)
+    have h0 : (items.map (fun z => if z = y then 1 else 0)).sum = 0 := by
+      apply sum_map_zero
+      intro a ha
+      have : a ≠ y := fun e => hin (e ▸ ha)
+      simp [this]
+    have h1 : 0 < (removed.map (fun z => if z = y then 1 else 0)).sum := by
+      obtain ⟨pre, post, rfl⟩ := List.append_of_mem hy
+      simp [List.map_append, List.sum_append]
+      omega
+    omega
+
+theorem listMut_preserves (E : Env) (st : St) (regs : List Reg) (c : Id) (items items' rest : List Id) (ev : CEvent)
+    (hinv : HooksEqReach st.h st.H regs) (fr : ListFrag E st regs c items items' rest ev) :
+    HooksEqReach (st.h.upd c (.list items')) (runCont E st (st.h.upd c (.list items')) c (some ev)).st.H regs ∧
+    (runCont E st (st.h.upd c (.list items')) c (some ev)).err = none := by
+  obtain ⟨hwf, hcnt⟩ := hinv
+  have ok := listSite_ok st.h c items fr.hc
+  have R0 := listRel_self st.h c items fr.hc
+  have R1 := listRel_upd fr.hc items'
+  have Dh : ∀ r ∈ regs, ∀ o' q, cntItems (hookList st.h r.k true r.g (some r.x)) o' q =
+      cntItems (Gen.stable (listSite c) st.h r.k true r.g (some r.x)) o' q +
+      Gen.blocks st.h r.k (items.map some) (Gen.visits (listSite c) actTrue st.h r.g (some r.x)) o' q :=
+    fun r hr o' q => Gen.dec ok R0 r.k r.g (fr.noFiltered r hr) true (some r.x) o' q
+  have Dh' : ∀ r ∈ regs, ∀ o' q, cntItems (hookList (st.h.upd c (.list items')) r.k true r.g (some r.x)) o' q =
+      cntItems (Gen.stable (listSite c) st.h r.k true r.g (some r.x)) o' q +
+      Gen.blocks (st.h.upd c (.list items')) r.k (items'.map some)
+        (Gen.visits (listSite c) actTrue st.h r.g (some r.x)) o' q :=
+    fun r hr o' q => Gen.dec ok R1 r.k r.g (fr.noFiltered r hr) true (some r.x) o' q
+  -- L3 below every current item
+  have L3y : ∀ r ∈ regs, ∀ g ∈ Gen.visits (listSite c) actTrue st.h r.g (some r.x), ∀ y ∈ items,
+      hookList (st.h.upd c (.list items')) r.k true g (some y) = hookList st.h r.k true g (some y) := by
+    intro r hr g hg y hy
+    exact Gen.locality ok R1 r.k g (Gen.visits_noFiltered st.h r.g (fr.noFiltered r hr) (some r.x) g hg) true (some y)
+      (fr.nsrItems r hr g hg y hy)
+  have L3 : ∀ r ∈ regs, ∀ o' q, Gen.blocks (st.h.upd c (.list items')) r.k (items.map some)
+        (Gen.visits (listSite c) actTrue st.h r.g (some r.x)) o' q =
+      Gen.blocks st.h r.k (items.map some) (Gen.visits (listSite c) actTrue st.h r.g (some r.x)) o' q := by
+    intro r hr o' q
+    unfold Gen.blocks
+    apply sum_map_congr
+    intro g hg
+    congr 1
+    apply flatMap_congr'
+    intro w hw
+    simp only [List.mem_map] at hw
+    obtain ⟨y, hy, rfl⟩ := hw
+    exact L3y r hr g hg y hy
+  have B0 : ∀ r ∈ regs, ∀ q, Gen.blocks st.h r.k (items.map some)
+      (Gen.visits (listSite c) actTrue st.h r.g (some r.x)) (.cont c) q = 0 := by
+    intro r hr q
+    unfold Gen.blocks
+    apply sum_map_zero
+    intro g hg
+    apply cntItems_zero_of_ne
+    intro it hit
+    simp only [List.mem_flatMap, List.mem_map] at hit
+    obtain ⟨w, ⟨y, hy, rfl⟩, hm⟩ := hit
+    exact fr.nsrItems r hr g hg y hy it hm
+  have specH : ∀ o' q, specCnt st.h regs o' q =
+      (regs.map (fun r => cntItems (Gen.stable (listSite c) st.h r.k true r.g (some r.x)) o' q)).sum +
+      (regs.map (fun r => Gen.blocks st.h r.k (items.map some)
+        (Gen.visits (listSite c) actTrue st.h r.g (some r.x)) o' q)).sum := by
+    intro o' q
+    unfold specCnt
+    rw [← sum_map_add]
+    exact sum_map_congr _ _ _ (fun r hr => Dh r hr o' q)
+  have specH' : ∀ o' q, specCnt (st.h.upd c (.list items')) regs o' q =
+      (regs.map (fun r => cntItems (Gen.stable (listSite c) st.h r.k true r.g (some r.x)) o' q)).sum +
+      (regs.map (fun r => Gen.blocks (st.h.upd c (.list items')) r.k (items'.map some)
+        (Gen.visits (listSite c) actTrue st.h r.g (some r.x)) o' q)).sum := by
+    intro o' q
+    unfold specCnt
+    rw [← sum_map_add]
+    exact sum_map_congr _ _ _ (fun r hr => Dh' r hr o' q)
+  -- the maintainers on the list are the visits
+  have hcounts : ∀ q, (mKeys (st.H.get (.cont c))).countP (fun a => a.equals q) =
+      (visitKeysL st.h c regs).countP (fun a => a.equals q) := by
+    intro q
+    cases q with
+    | user k0 =>
+      rw [List.countP_eq_zero.2, List.countP_eq_zero.2]
+      · intro a ha
+        obtain ⟨r, _, g, _, rfl⟩ := visitKeysL_shape _ _ _ a ha
+        simp [NKey.equals]
+      · intro a ha
+        obtain ⟨mk, g, k, rfl, _⟩ := mKeys_shape _ a ha
+        simp [NKey.equals]
+    | maint mk c0 k0 =>
+      rw [← cntList_eq_countP_m]
+      have := hcnt (.cont c) (.maint mk c0 k0)
+      unfold cnt at this
+      rw [this]
+      by_cases hmk : mk = .list
+      · subst hmk
+        rw [visitKeysL_countP, specH]
+        have hz : (regs.map (fun r => Gen.blocks st.h r.k (items.map some)
+            (Gen.visits (listSite c) actTrue st.h r.g (some r.x)) (.cont c) (.maint .list c0 k0))).sum = 0 :=
+          sum_map_zero _ _ (fun r hr => B0 r hr _)
+        rw [hz, Nat.add_zero]
+        exact sum_map_congr _ _ _ (fun r hr =>
+          Gen.stable_at_target ok (by simp [listSite]) r.k r.g (fr.noFiltered r hr) true (some r.x) c0 k0)
+      · rw [specCnt_cont_kind st.h regs c items fr.hc mk c0 k0 hmk, eq_comm, List.countP_eq_zero]
+        intro a ha
+        obtain ⟨r, _, g, _, rfl⟩ := visitKeysL_shape _ _ _ a ha
+        cases mk <;> simp_all [NKey.equals]
+  have hmatch : ∀ (ys : List Id) o' q,
+      effectSumC (blockOf (st.h.upd c (.list items')) ys o' q) (st.H.get (.cont c)) =
+      (regs.map (fun r => Gen.blocks (st.h.upd c (.list items')) r.k (ys.map some)
+        (Gen.visits (listSite c) actTrue st.h r.g (some r.x)) o' q)).sum := by
+    intro ys o' q
+    rw [effectSumC_eq_keys, sum_blocks_eq_keysL]
+    apply sum_eq_of_equiv_counts _ _ _ hcounts
+    intro a ha b hb hab
+    obtain ⟨mk, g, k, rfl, hm⟩ := mKeys_shape _ a ha
+    obtain ⟨r, hr, g', hg', rfl⟩ := visitKeysL_shape _ _ _ b hb
+    obtain ⟨rfl, rfl⟩ := fr.eqStruct mk g k hm r hr g' hg' hab
+    rfl
+  -- multiset decomposition of the blocks
+  have hsplitB : ∀ (ys a b : List Id), (∀ F : Id → Nat, (ys.map F).sum = (a.map F).sum + (b.map F).sum) →
+      ∀ o' q, (regs.map (fun r => Gen.blocks (st.h.upd c (.list items')) r.k (ys.map some)
+        (Gen.visits (listSite c) actTrue st.h r.g (some r.x)) o' q)).sum =
+      (regs.map (fun r => Gen.blocks (st.h.upd c (.list items')) r.k (a.map some)
+        (Gen.visits (listSite c) actTrue st.h r.g (some r.x)) o' q)).sum +
+      (regs.map (fun r => Gen.blocks (st.h.upd c (.list items')) r.k (b.map some)
+        (Gen.visits (listSite c) actTrue st.h r.g (some r.x)) o' q)).sum := by
+    intro ys a b hd o' q
+    rw [← sum_map_add]
+    apply sum_map_congr
+    intro r _
+    unfold Gen.blocks
+    rw [← sum_map_add]
+    apply sum_map_congr
+    intro g _
+    have := hd (fun y => cntItems (hookList (st.h.upd c (.list items')) r.k true g (some y)) o' q)
+    simp only [cntItems_flatMap, List.map_map, Function.comp_def]
+    exact this
+  -- live iteration = iteration over the copy
+  have hfr : ∀ mk g k, Notifier.maint mk g k ∈ st.H.get (.cont c) → ∀ H',
+      (maintCont (st.h.upd c (.list items')) g k ev H').H.get (.cont c) = H'.get (.cont c) :=
+    fun mk g k hm H' => maintCont_frame _ g k ev (.cont c) H' (fr.nsrLive mk g k hm)
+  have heq := notifyCont_eq_callCont E (st.h.upd c (.list items')) c ev (st.H.get (.cont c)) hfr
+    ((st.H.get (.cont c)).length + 64) 0 st.H [] rfl (by omega)
+  simp only [runCont, heq, List.drop_zero]
+  have hl : LoopOkC E (st.h.upd c (.list items')) ev (st.H.get (.cont c)) :=
+    { alive := fr.alive, okRem := fr.okRem, okAdd := fr.okAdd }
+  have hI := fun o' q => hsplitB items ev.removed rest fr.hitems o' q
+  have hI' := fun o' q => hsplitB items' rest ev.added fr.hitems' o' q
+  have hle : ∀ o' q, effectSumC (blockOf (st.h.upd c (.list items')) ev.removed o' q) (st.H.get (.cont c)) ≤
+      cnt st.H o' q := by
+    intro o' q
+    rw [hmatch, hcnt, specH, ← sum_map_congr _ _ _ (fun r hr => L3 r hr o' q), hI]
+    omega
+  obtain ⟨e, w, cc⟩ := callCont_effect E (st.h.upd c (.list items')) c ev _ st.H [] hl hwf hle
+  refine ⟨⟨w, ?_⟩, e⟩
+  intro o' q
+  have := cc o' q
+  rw [hmatch, hmatch, hcnt, specH, ← sum_map_congr _ _ _ (fun r hr => L3 r hr o' q), hI] at this
+  rw [specH', hI']
+  omega
+
+/-! ### the list operations -/
+
+theorem sum_eraseIdx (F : Id → Nat) : ∀ (l : List Id) (i : Nat) (y : Id), l[i]? = some y →
+    (l.map F).sum = F y + ((l.eraseIdx i).map F).sum := by
+  intro l
+  induction l with
+  | nil => intro i y h; simp at h
+  | cons a l ih =>
+    intro i y h
+    cases i with
+    | zero => simp at h; subst h; simp
+    | succ i =>
+      simp only [List.getElem?_cons_succ] at h
+      have := ih i y h
+      simp only [List.map_cons, List.sum_cons, List.eraseIdx_cons_succ, this]
+      omega
+
+theorem sum_set (F : Id → Nat) : ∀ (l : List Id) (i : Nat) (y x : Id), l[i]? = some y →
+    ((l.set i x).map F).sum = ((l.eraseIdx i).map F).sum + F x := by
+  intro l
+  induction l with
+  | nil => intro i y x h; simp at h
+  | cons a l ih =>
+    intro i y x h
+    cases i with
+    | zero => simp; omega
+    | succ i =>
+      simp only [List.getElem?_cons_succ] at h
+      have := ih i y x h
+      simp only [List.set_cons_succ, List.map_cons, List.sum_cons, List.eraseIdx_cons_succ, this]
+      omega
+
+theorem sum_insert (F : Id → Nat) (l : List Id) (i : Nat) (x : Id) :
+    ((l.take i ++ x :: l.drop i).map F).sum = (l.map F).sum + F x := by
+  have : (l.map F).sum = ((l.take i ++ l.drop i).map F).sum := by rw [List.take_append_drop]
+  rw [this]
+  simp only [List.map_append, List.sum_append, List.map_cons, List.sum_cons]
+  omega
+
+/-- `l.append(x)` -/
+theorem listAppend_preserves (E : Env) (st : St) (regs : List Reg) (c : Id) (x : Id) (items : List Id)
+    (hinv : HooksEqReach st.h st.H regs)
+    (core : ListCore E st regs c items (items ++ [x]) (.list items.length [] [x])) :
+    HooksEqReach (mutate E st (.listAppend c x)).st.h (mutate E st (.listAppend c x)).st.H regs ∧
+    (mutate E st (.listAppend c x)).err = none := by
+  have fr : ListFrag E st regs c items (items ++ [x]) items (.list items.length [] [x]) :=
+    { core with
+      hitems := by intro F; simp [CEvent.removed]
+      hitems' := by intro F; simp [CEvent.added, List.map_append, List.sum_append] }
+  simp only [mutate, core.hc]
+  exact listMut_preserves E st regs c items _ items _ hinv fr
+
+/-- `l.insert(i, x)` -/
+theorem listInsert_preserves (E : Env) (st : St) (regs : List Reg) (c : Id) (i : Nat) (x : Id) (items : List Id)
+    (hi : i ≤ items.length) (hinv : HooksEqReach st.h st.H regs)
+    (core : ListCore E st regs c items (items.take i ++ x :: items.drop i) (.list i [] [x])) :
+    HooksEqReach (mutate E st (.listInsert c i x)).st.h (mutate E st (.listInsert c i x)).st.H regs ∧
+    (mutate E st (.listInsert c i x)).err = none := by
+  have fr : ListFrag E st regs c items (items.take i ++ x :: items.drop i) items (.list i [] [x]) :=
+    { core with
+      hitems := by intro F; simp [CEvent.removed]
+      hitems' := by intro F; rw [sum_insert]; simp [CEvent.added] }
+  simp only [mutate, core.hc, hi, if_true]
+  exact listMut_preserves E st regs c items _ items _ hinv fr
+
+/-- `del l[i]` — an object present twice and removed once keeps one registration's worth of hooks -/
+theorem listDel_preserves (E : Env) (st : St) (regs : List Reg) (c : Id) (i : Nat) (y : Id) (items : List Id)
+    (hy : items[i]? = some y) (hinv : HooksEqReach st.h st.H regs)
+    (core : ListCore E st regs c items (items.eraseIdx i) (.list i [y] [])) :
+    HooksEqReach (mutate E st (.listDel c i)).st.h (mutate E st (.listDel c i)).st.H regs ∧
+    (mutate E st (.listDel c i)).err = none := by
+  have fr : ListFrag E st regs c items (items.eraseIdx i) (items.eraseIdx i) (.list i [y] []) :=
+    { core with
+      hitems := by intro F; rw [sum_eraseIdx F items i y hy]; simp [CEvent.removed]
+      hitems' := by intro F; simp [CEvent.added] }
+  simp only [mutate, core.hc, hy]
+  exact listMut_preserves E st regs c items _ _ _ hinv fr
+
+/-- `l[i] = x` -/
+theorem listSet_preserves (E : Env) (st : St) (regs : List Reg) (c : Id) (i : Nat) (x y : Id) (items : List Id)
+    (hy : items[i]? = some y) (hinv : HooksEqReach st.h st.H regs)
+    (core : ListCore E st regs c items (items.set i x) (.list i [y] [x])) :
+    HooksEqReach (mutate E st (.listSet c i x)).st.h (mutate E st (.listSet c i x)).st.H regs ∧
+    (mutate E st (.listSet c i x)).err = none := by
+  have fr : ListFrag E st regs c items (items.set i x) (items.eraseIdx i) (.list i [y] [x]) :=
+    { core with
+      hitems := by intro F; rw [sum_eraseIdx F items i y hy]; simp [CEvent.removed]
+      hitems' := by intro F; rw [sum_set F items i y x hy]; simp [CEvent.added] }
+  simp only [mutate, core.hc, hy]
+  exact listMut_preserves E st regs c items _ _ _ hinv fr
+
+/-- `l.clear()` on a non-empty list -/
+theorem listClear_preserves (E : Env) (st : St) (regs : List Reg) (c : Id) (items : List Id)
+    (hne : items.isEmpty = false) (hinv : HooksEqReach st.h st.H regs)
+    (core : ListCore E st regs c items [] (.list 0 items [])) :
+    HooksEqReach (mutate E st (.listClear c)).st.h (mutate E st (.listClear c)).st.H regs ∧
+    (mutate E st (.listClear c)).err = none := by
+  have fr : ListFrag E st regs c items [] [] (.list 0 items []) :=
+    { core with
+      hitems := by intro F; simp [CEvent.removed]
+      hitems' := by intro F; simp [CEvent.added] }
+  simp only [mutate, core.hc, hne, Bool.false_eq_true, if_false]
+  exact listMut_preserves E st regs c items _ _ _ hinv fr
+
+/-- `l.extend(xs)` with `xs` non-empty (same object several times allowed) -/
+theorem listExtend_preserves (E : Env) (st : St) (regs : List Reg) (c : Id) (xs : List Id) (items : List Id)
+    (hne : xs.isEmpty = false) (hinv : HooksEqReach st.h st.H regs)
+    (core : ListCore E st regs c items (items ++ xs) (.list items.length [] xs)) :
+    HooksEqReach (mutate E st (.listExtend c xs)).st.h (mutate E st (.listExtend c xs)).st.H regs ∧
+    (mutate E st (.listExtend c xs)).err = none := by
+  have fr : ListFrag E st regs c items (items ++ xs) items (.list items.length [] xs) :=
+    { core with
+      hitems := by intro F; simp [CEvent.removed]
+      hitems' := by intro F; simp [CEvent.added, List.map_append, List.sum_append] }
+  simp only [mutate, core.hc, hne, Bool.false_eq_true, if_false]
+  exact listMut_preserves E st regs c items _ _ _ hinv fr
+
 end TraitsVerif.Model.Obs
